@@ -5,6 +5,7 @@
 #include <QAtomicInt>
 #include <QCoreApplication>
 #include <QEvent>
+#include <QList>
 #include <QMutexLocker>
 #include <QObject>
 #include <QPointer>
@@ -71,6 +72,17 @@ public:
         });
 
         m_thread->start();
+
+        if (qApp) {
+            // aboutToQuit is only emitted by a running event loop. An application that is
+            // destroyed without exec() must still stop the thread while it exists: afterwards
+            // Qt discards the queued events and the backlog would never drain
+            auto &registry = exitRegistry();
+            QMutexLocker registryLocker(&registry.mutex);
+            if (registry.handlers.isEmpty())
+                qAddPostRoutine(&OwnThreadHandler<BaseHandler>::stopAllAtApplicationExit);
+            registry.handlers.append(this);
+        }
         QTLOGGER_VERIF_POINT("oth.move.started", this);
 
         return *this;
@@ -101,6 +113,13 @@ public:
 
         m_thread.clear();
         m_worker = nullptr;
+
+        {
+            auto &registry = exitRegistry();
+            QMutexLocker registryLocker(&registry.mutex);
+            if (registry.handlers.removeAll(this) > 0 && registry.handlers.isEmpty())
+                qRemovePostRoutine(&OwnThreadHandler<BaseHandler>::stopAllAtApplicationExit);
+        }
         QTLOGGER_VERIF_POINT("oth.reset.done", this);
     }
 
@@ -163,6 +182,35 @@ private:
     private:
         OwnThreadHandler<BaseHandler> *m_handler;
     };
+
+    struct ExitRegistry
+    {
+        QMutex mutex;
+        QList<OwnThreadHandler<BaseHandler> *> handlers;
+    };
+
+    static ExitRegistry &exitRegistry()
+    {
+        // Never destroyed: handlers with static storage duration unregister during exit
+        static auto registry = new ExitRegistry;
+        return *registry;
+    }
+
+    // Post routine of QCoreApplication: runs in its destructor while the instance still exists
+    static void stopAllAtApplicationExit()
+    {
+        auto &registry = exitRegistry();
+        for (;;) {
+            OwnThreadHandler<BaseHandler> *handler = nullptr;
+            {
+                QMutexLocker registryLocker(&registry.mutex);
+                if (registry.handlers.isEmpty())
+                    break;
+                handler = registry.handlers.takeFirst();
+            }
+            handler->resetOwnThread();
+        }
+    }
 
 private:
     QPointer<QThread> m_thread;
